@@ -15,6 +15,9 @@ ASSUMPTIONS = ["absence of panics and data races in the ~25 handlers over arbitr
 DOCS = ["package p\n\nimport rego.v1\n\nallow if input.x == 1\n", "package p\n\nimport rego.v1\n\nallow if {\n", "",
         "package p\r\n\r\nimport rego.v1\r\n\r\nx = 1\r\n", "not rego at all {{{", "package p\n\nimport rego.v1\n\n# METADATA\n# entrypoint: true\nallow := regex.match(\"a\\\\d\", input.x)\n",
         "package é\n\nimport rego.v1\n\nx := \"é€\"\n"]
+LONG_BROKEN = "package p\n\nimport rego.v1\n\n" + "".join("r%d := %d\n\n" % (i, i) for i in range(8)) + "broken if {\n"
+DOCS += [LONG_BROKEN, "package p\n", "package p\n\nimport rego.v1\n\nf(x) := y if {\n\ty := x\n}\n\nr := f(1)\n"]
+CLIENTS = ["verif", "Visual Studio Code", "Neovim", "Zed"]
 URIS = ["$ROOT/p/a.rego", "$ROOT/p/b.rego", "$ROOT/q/new.rego", "$ROOT/ignored/i.rego", "$ROOT/nope/missing.rego", "$ROOT/.regal/config.yaml"]
 CFG = "rules:\n  idiomatic:\n    directory-package-mismatch:\n      level: ignore\nignore:\n  files:\n    - ignored/\n"
 
@@ -48,7 +51,8 @@ def gen_seq(rng, k, maxlen):
         elif r < 0.56:
             rg = {"start": pos(rng), "end": pos(rng)}
             msgs.append({"method": "textDocument/codeAction", "params": dict(td, range=rg, context={"diagnostics": [
-                {"range": rg, "message": "m", "code": rng.choice(["opa-fmt", "use-assignment-operator", "directory-package-mismatch", "x"]), "source": "regal/style"}]})})
+                dict({"range": rg, "message": "m", "code": rng.choice(["opa-fmt", "use-assignment-operator", "directory-package-mismatch", "x"]), "source": "regal/style"},
+                     **({"codeDescription": {"href": "https://docs.styra.com/regal/rules/style/opa-fmt"}} if rng.random() < 0.5 else {}))]})})
         elif r < 0.61:
             msgs.append({"method": "textDocument/formatting", "params": dict(td, options={"tabSize": 4, "insertSpaces": False})})
         elif r < 0.65:
@@ -65,11 +69,11 @@ def gen_seq(rng, k, maxlen):
             msgs.append({"method": rng.choice(["workspace/symbol", "workspace/diagnostic", "textDocument/diagnostic"]), "params": {"query": ""}})
         elif r < 0.88:
             msgs.append({"fs": "write", "file": "q/new.rego", "text": rng.choice(DOCS)})
-            msgs.append({"method": "workspace/didCreateFiles", "params": {"files": [{"uri": "$ROOT/q/new.rego"}]}})
+            msgs.append({"method": "workspace/didCreateFiles", "params": {"files": [{"uri": "$ROOT/q/new.rego"}] if rng.random() < 0.85 else []}})
         elif r < 0.91:
-            msgs.append({"method": "workspace/didDeleteFiles", "params": {"files": [{"uri": u}]}})
+            msgs.append({"method": "workspace/didDeleteFiles", "params": {"files": [{"uri": u}] if rng.random() < 0.85 else []}})
         elif r < 0.94:
-            msgs.append({"method": "workspace/didRenameFiles", "params": {"files": [{"oldUri": u, "newUri": rng.choice(URIS)}]}})
+            msgs.append({"method": "workspace/didRenameFiles", "params": {"files": [{"oldUri": u, "newUri": rng.choice(URIS)}] if rng.random() < 0.85 else []}})
         elif r < 0.97:
             if rng.random() < 0.5:
                 msgs.append({"fs": "remove", "file": ".regal/config.yaml"})
@@ -80,34 +84,177 @@ def gen_seq(rng, k, maxlen):
                                                                         "arguments": [rng.choice(['{"target":"$ROOT/p/a.rego"}', "x"])]}})
         if rng.random() < 0.3:
             msgs[-1]["pauseMs"] = rng.choice([50, 300])
-    return {"id": k, "op": "lsp.fuzz", "files": files, "messages": msgs}
+    return {"id": k, "op": "lsp.fuzz", "files": files, "messages": msgs, "client": rng.choice(CLIENTS)}
+
+
+FEATURES = ["hover", "completion", "codeAction", "formatting", "documentSymbol", "foldingRange", "inlayHint", "codeLens", "definition"]
+
+
+def feature_msg(f, u, line=0, ch=0):
+    td = {"textDocument": {"uri": u}}
+    p = {"line": line, "character": ch}
+    if f in ("hover", "definition"):
+        return {"method": "textDocument/" + f, "params": dict(td, position=p)}
+    if f == "completion":
+        return {"method": "textDocument/completion", "params": dict(td, position=p, context={"triggerKind": 1})}
+    if f == "codeAction":
+        rg = {"start": p, "end": p}
+        return {"method": "textDocument/codeAction", "params": dict(td, range=rg, context={"diagnostics": [
+            {"range": rg, "message": "m", "code": "opa-fmt", "source": "regal/style"}]})}
+    if f == "formatting":
+        return {"method": "textDocument/formatting", "params": dict(td, options={"tabSize": 4, "insertSpaces": False})}
+    if f == "inlayHint":
+        return {"method": "textDocument/inlayHint", "params": dict(td, range={"start": {"line": 0, "character": 0}, "end": {"line": 99, "character": 0}})}
+    return {"method": "textDocument/" + f, "params": td}
+
+
+def directed(first_id):
+    """scenario library: orders and contents that the random generator reaches rarely"""
+    files = {"p/a.rego": DOCS[0], "p/b.rego": DOCS[5], "ignored/i.rego": DOCS[0], ".regal/config.yaml": CFG}
+    u, v = "$ROOT/p/a.rego", "$ROOT/p/b.rego"
+    out = []
+
+    def add(msgs, client="verif"):
+        out.append({"id": first_id + len(out), "op": "lsp.fuzz", "files": files, "messages": msgs, "client": client, "_directed": True})
+    # (1) every feature request right after a change that makes the document much shorter than the position of the
+    #     previous parse error / longer than before (state of the previous version still cached), no pause
+    for short in ("package p\n", "", DOCS[0]):
+        msgs = [{"method": "textDocument/didOpen", "params": {"textDocument": {"uri": u, "text": LONG_BROKEN, "languageId": "rego", "version": 1}}, "pauseMs": 700}]
+        for f in FEATURES:
+            msgs.append({"method": "textDocument/didChange", "params": {"textDocument": {"uri": u, "version": 2}, "contentChanges": [{"text": LONG_BROKEN}]}, "pauseMs": 400})
+            msgs.append({"method": "textDocument/didChange", "params": {"textDocument": {"uri": u, "version": 3}, "contentChanges": [{"text": short}]}})
+            msgs.append(feature_msg(f, u, 20, 3))
+        add(msgs, "Visual Studio Code")
+    # (2) jobs for files that disappear while the workers are busy, then more traffic than the queues hold
+    msgs = [{"method": "textDocument/didOpen", "params": {"textDocument": {"uri": v, "text": DOCS[8] if len(DOCS) > 8 else DOCS[0], "languageId": "rego", "version": 1}}},
+            {"method": "textDocument/didOpen", "params": {"textDocument": {"uri": u, "text": DOCS[0], "languageId": "rego", "version": 1}}},
+            {"method": "workspace/didDeleteFiles", "params": {"files": [{"uri": u}]}}]
+    for i in range(14):
+        msgs.append({"method": "textDocument/didChange", "params": {"textDocument": {"uri": v, "version": 2 + i}, "contentChanges": [{"text": DOCS[0] + "# %d\n" % i}]}})
+    msgs.append(feature_msg("hover", v, 4, 2))
+    add(msgs)
+    # (4) configuration reloads (the watcher fires on every write) interleaved with document traffic and feature requests
+    cfg2 = CFG + "project:\n  rego-version: 1\n  roots:\n    - path: p\n      rego-version: 0\n"
+    for notify in (True, False):
+        msgs = [{"method": "textDocument/didOpen", "params": {"textDocument": {"uri": u, "text": DOCS[0], "languageId": "rego", "version": 1}}, "pauseMs": 600}]
+        for i in range(4):
+            msgs.append({"fs": "write", "file": ".regal/config.yaml", "text": cfg2 if i % 2 == 0 else CFG, "noPause": notify})
+            for j in range(6):
+                msgs.append({"method": "textDocument/didChange", "notify": notify,
+                             "params": {"textDocument": {"uri": u, "version": 2 + 10 * i + j}, "contentChanges": [{"text": DOCS[0] + "# %d %d\n" % (i, j)}]}})
+                for f in ("completion", "formatting") + (() if notify else ("hover",)):
+                    msgs.append(feature_msg(f, u, 4, 2))
+            msgs[-1]["pauseMs"] = 400
+        add(msgs)
+    # (3) empty lists and optional fields left out, as each client flavour
+    for client in CLIENTS:
+        add([{"method": "workspace/didCreateFiles", "params": {"files": []}},
+             {"method": "workspace/didDeleteFiles", "params": {"files": []}},
+             {"method": "workspace/didRenameFiles", "params": {"files": []}},
+             {"method": "textDocument/didChange", "params": {"textDocument": {"uri": u, "version": 2}, "contentChanges": []}},
+             feature_msg("codeAction", u, 0, 0),
+             {"method": "textDocument/codeAction", "params": {"textDocument": {"uri": u}, "range": {"start": {"line": 0, "character": 0}, "end": {"line": 0, "character": 0}}, "context": {"diagnostics": []}}},
+             {"method": "workspace/executeCommand", "params": {"command": "regal.fix.opa-fmt", "arguments": []}},
+             feature_msg("hover", "$ROOT/nope/missing.rego", 0, 0)], client)
+    return out
+
+
+def judge(ctx, c, r):
+    o = r.get("out") or {}
+    desc = {"messages": c["messages"], "client": c.get("client")}
+    if "crash" in r or "panic" in r:
+        text = str(r.get("crash") or r.get("panic"))
+        ctx.fail("the language server process panicked / died", desc, None, text[-1500:])
+        return
+    if "error" in o:
+        ctx.brk("lsp.fuzz harness", desc, o, None)
+        return
+    res = o.get("results") or []
+    for m, x in zip(c["messages"], res):
+        ctx.count("%s:%s" % (m.get("method") or "fs", x))
+    if "timeout" in res:
+        k = res.index("timeout")
+        ctx.fail("a request was not answered within 10 s", desc, None, {"index": k, "message": c["messages"][k]})
+    if not o.get("idle"):
+        ctx.fail("the server did not become idle after the last message", desc, None, None)
+    if o.get("alive") not in ("ok", "error"):
+        ctx.fail("the server stopped answering", desc, None, o.get("alive"))
+
+
+def race_run(ctx, cases):
+    """the same kind of sequences against an oracle built with -race from the current tree: the statement names races
+    on shared state, so a report inside the repository's code is a violation (the report is the replay)"""
+    import os, subprocess, json as _json, re
+    from . import core
+    try:
+        racebin = core.build_oracle(name="oracle-race-lsp", race=True)
+    except core.BuildBroken as e:
+        ctx.brk("race-detector oracle build", {"op": "build -race"}, str(e)[-500:], None)
+        return
+    data = "".join(_json.dumps(c, ensure_ascii=False) + "\n" for c in cases)
+    env = dict(os.environ, GORACE="halt_on_error=0")
+    try:
+        p = subprocess.run([racebin], input=data, env=env, stdout=subprocess.PIPE, stderr=subprocess.PIPE, text=True, timeout=2400)
+    except subprocess.TimeoutExpired:
+        ctx.brk("race-detector run timed out", {"n": len(cases)}, None, None)
+        return
+    answered = sum(1 for l in p.stdout.splitlines() if l.strip().startswith("{"))
+    for c in cases:
+        ctx.seen({"race": c["id"]}, ("race", c["id"]))
+    ctx.count("race-detector-sequences", len(cases))
+    if answered < len(cases):
+        ctx.fail("the language server process died under the race detector run", {"answered": answered, "of": len(cases)}, None, p.stderr[-1500:])
+    races = p.stderr.split("WARNING: DATA RACE")[1:]
+    sites = []
+    for r in races:
+        frames = re.findall(r"^\s+(/\S+\.go:\d+)", r, re.M)
+        own = [f for f in frames if "/internal/verifharness/" not in f and "/repo/" in f or "regal/" in f]
+        key = own[0] if own else (frames[0] if frames else "?")
+        if key not in sites:
+            sites.append(key)
+    sites = [s for s in sites if "/verifharness/" not in s]
+    if sites:
+        ctx.fail("Go race detector: unsynchronised access to state shared between the message loop and the workers "
+                 "(%d report(s))" % len(races), {"sequences": len(cases)}, None, {"sites": sites[:8], "first_report": races[0][:2500]})
+
+
+def field_write_facts(ctx):
+    import json as _json, os
+    from . import core
+    got = ctx.impl([{"id": 0, "op": "facts.lsp"}])[0].get("out")
+    base = _json.load(open(os.path.join(core.VERIF, "facts", "c17_field_writes.json")))["writes"]
+    ctx.seen({"facts.lsp": len(got or [])}, ("facts.lsp",))
+    if got != base:
+        ctx.brk("internal/lsp writes to LanguageServer fields ~ facts/c17_field_writes.json (reviewed: shared fields are only "
+                "assigned during initialisation or under a mutex)", {"op": "facts.lsp"},
+                {"new": [x for x in (got or []) if x not in base], "gone": [x for x in base if x not in (got or [])]}, None)
+
+
+def search(ctx):
+    """an obligation broke (e.g. a new unguarded write to shared server state) and the regular run found no failing
+    sequence: longer configuration-reload / traffic scenarios under the race detector, several repetitions"""
+    dd = [d for d in directed(0) if len(d["messages"]) > 60]
+    cases = []
+    for rep in range(3):
+        for d in dd:
+            c = dict(d, id=len(cases))
+            c["messages"] = d["messages"] * 2
+            cases.append(c)
+    race_run(ctx, cases)
 
 
 def run(ctx):
     rng = ctx.rng()
+    field_write_facts(ctx)
     cases = [gen_seq(rng, k, 14 if ctx.quick else 30) for k in range(24 if ctx.quick else 400)]
+    cases += directed(len(cases))
+    race_cases = [dict(gen_seq(rng, k, 12), id=k) for k in range(5 if ctx.quick else 60)]
+    dd = directed(len(race_cases))
+    race_cases += [d for d in dd if len(d["messages"]) > 60][:1] + [dd[0], dd[-1]]
     impl = ctx.impl(cases, timeout=3000, procs=6)
     for c in cases:
-        r = impl[c["id"]]
-        o = r.get("out") or {}
-        desc = {"messages": c["messages"]}
         nontriv = any(m.get("method", "").startswith("textDocument/") and "did" not in m.get("method", "") for m in c["messages"])
         ctx.seen(c, ("seq", c["id"]) if nontriv else None)
-        if "crash" in r or "panic" in r:
-            text = str(r.get("crash") or r.get("panic"))
-            ctx.fail("the language server process panicked / died", desc, None, text[-1500:])
-            continue
-        if "error" in o:
-            ctx.brk("lsp.fuzz harness", desc, o, None)
-            continue
-        res = o.get("results") or []
-        for m, x in zip(c["messages"], res):
-            ctx.count("%s:%s" % (m.get("method") or "fs", x))
-        if "timeout" in res:
-            k = res.index("timeout")
-            ctx.fail("a request was not answered within 10 s", desc, None, {"index": k, "message": c["messages"][k]})
-        if not o.get("idle"):
-            ctx.fail("the server did not become idle after the last message", desc, None, None)
-        if o.get("alive") not in ("ok", "error"):
-            ctx.fail("the server stopped answering", desc, None, o.get("alive"))
+        judge(ctx, c, impl[c["id"]])
+    race_run(ctx, race_cases)
     ctx.sample({"messages": cases[0]["messages"][:6], "results": (impl[0].get("out") or {}).get("results")})
